@@ -489,7 +489,7 @@ class Inductive:
         """A state of R in which every thread is done and the driver did not FAIL (vacuity guard)."""
         enc = self.enc
         s = self.solver(timeout_s)
-        s.add(self.R(enc.pre), enc.alldone, z3.Not(enc.fail))
+        s.add(self.R(enc.pre), enc.alldone, z3.Not(enc.fail_all))
         t1 = time.time()
         r = str(s.check())
         q = {'query': 'witness', 'result': r, 'solver_s': round(time.time() - t1, 2)}
